@@ -7,6 +7,16 @@ BASELINE_OFF = ("cd /repo && cargo nextest run --workspace --no-fail-fast --tool
                 "--test-threads 8 --offline || (cd /repo && cargo test --workspace --no-fail-fast --offline)")
 
 CHECKS = {
+ "C01": dict(
+   technique="proptest over structured statement specs (nesting via subqueries, set operations, CTEs); oracle = independent dialect lexer (placeholder count / form / numbering) + independent reading-order model of bound values over uniquely tagged values",
+   text="Exploration: 200 000 (quick) / 4 000 000 (thorough) generated SELECT / INSERT / UPDATE / DELETE statements per run across the three backends, with every bound value re-tagged uniquely; the placeholders found by the harness's lexer must match the returned values in number and form, and the returned value sequence must equal the sequence an independent traversal of the spec predicts for that dialect's clause order. All build entry points must agree.",
+   note="The reading-order model (stmt_params.rs) is transcribed from the engines' grammars; documented repetitions (MySQL NULLS emulation, ORDER BY FIELD) are modelled with their multiplicity. WithQuery wrapper statements are exercised through with_cte on each statement kind.",
+   ref="DESIGN.md 4/C01"),
+ "C02": dict(
+   technique="proptest over statement specs with values of every supported type; oracle = exact text relation (placeholders located by the harness lexer, replaced by the backend literal, must equal the inline rendering byte for byte) + agreement of all entry points + idempotence + immutability",
+   text="Exploration: 120 000 (quick) / 3 000 000 (thorough) generated statements with typed values; inline and parameterised renderings are related textually, all seven rendering entry points are compared, each statement is rendered twice and compared with a clone taken before rendering.",
+   note="The engine half (same rows for the inline and the bound form on SQLite) is exercised by C07's three-way execution of every generated statement; C02 itself relates the texts.",
+   ref="DESIGN.md 4/C02"),
  "C12": dict(
    technique="bounded-exhaustive (8/16-bit integers, chars, full source-variant x target-type table) + proptest random values and tuples; oracle = round trip through Value with an independent canonical form per type, variant observed by pattern matching only",
    text="Exploration: bool / i8 / u8 / i16 / u16 exhaustively, every 17th char (quick) / all chars (thorough), the full table of 477 source values x 137 target extractions, corner values and random values of every supported type (floats by bit pattern, JSON, chrono / time, decimals, uuid, network types, arrays, vectors), Option<T> of each and tuples of arity 1..12. Run in two build configurations (with and without hashable-value).",
